@@ -92,8 +92,23 @@ def render(case, scratch):
             elif k == "inactive":
                 labs.add("inactive_section")
                 lines.append("#ifdef NOPE_%d" % u)
-                for j in range(b[1]):
-                    lines.append(["dead%d = 1;" % u, "#define D%d 1" % u, "// dead", 'dead%d = "x";' % u][j % 4])
+                # every directive kind occurs inside inactive sections (none of them may have an effect or cost a line)
+                pool = ["dead%d = 1;" % u, "#define D%d 1" % u, '#include "nofile%d.hpp"' % u, "// dead", 'dead%d = "x";' % u, "#undef ZZQ",
+                        '#include "main.sqf"', "#ifdef Q%d" % u, "#endif", "#pragma sqfvm dead", "#define DM%d 1 \\" % u, "   + 2"]
+                start = (u * 5) % len(pool)
+                seq = []
+                j = 0
+                while len(seq) < b[1]:
+                    item = pool[(start + j) % len(pool)]
+                    j += 1
+                    if item == "#endif" and "#ifdef Q%d" % u not in seq:
+                        continue
+                    seq.append(item)
+                if seq.count("#ifdef Q%d" % u) > seq.count("#endif"):
+                    seq.append("#endif")
+                if seq and seq[-1].endswith("\\"):
+                    seq.append("   + 2")
+                lines += seq
                 lines.append("#endif")
             elif k == "active":
                 lines.append("#ifndef NOPE_%d" % u)
